@@ -157,7 +157,9 @@ def _worker_chunk(args):
 
 def _has_cls(res: RunResult, cls: str, key: Dict[str, Any]) -> bool:
     for v in res.violations:
-        if v.cls == cls and all(v.key.get(k) == val for k, val in key.items()):
+        # the same class with exactly the same key: a candidate that only shows the class under another key (for example one
+        # that a known finding covers) is a different violation and must not become the reported replay
+        if v.cls == cls and dict(v.key) == dict(key):
             return True
     return False
 
@@ -347,6 +349,7 @@ def run_check(mod, tier: str, base_seed: int, budget_s: Optional[float], workers
 
     ctx = mp.get_context("fork")
     harness_fail = None
+    hard_fail = False        # worker crash / time-out / exception inside the harness (as opposed to: something did not repeat)
     next_i = 0
     with cf.ProcessPoolExecutor(max_workers=workers, mp_context=ctx) as pool:
         pending = set()
@@ -387,6 +390,7 @@ def run_check(mod, tier: str, base_seed: int, budget_s: Optional[float], workers
                         merge(f.result())
         except (HarnessError, cf.process.BrokenProcessPool, Exception) as e:  # noqa
             harness_fail = "%s: %s" % (type(e).__name__, e)
+            hard_fail = True
             for p in list(getattr(pool, "_processes", {}).values()):
                 try:
                     p.kill()
@@ -429,7 +433,17 @@ def run_check(mod, tier: str, base_seed: int, budget_s: Optional[float], workers
         path = write_replay(prop, case, vals, vj, res.trace, base_seed, tries)
         ok = confirm_fresh(prop, path)
         if not ok:
-            harness_fail = (harness_fail or "") + " replay %s did not reproduce in a fresh interpreter" % path
+            # seen in the search AND seen again when the recorded choices were re-executed in this (other) process, but not in
+            # a fresh interpreter: the violation depends on process state that the recorded choices do not determine (object
+            # addresses, allocator state - e.g. a cache keyed by id()).  It is still a violation of the property; the replay
+            # file then documents the run but cannot be promised to reproduce.  Seen only once (not even re-executable here)
+            # -> the simulator itself is suspect: harness error.
+            again = [len([x for x in _run_one(mod, case, vals)[0].violations if x.cls == v["cls"]]) > 0 for _ in range(2)] if vs else []
+            if vs and len(lst) >= 2 or (vs and any(again)):
+                print("NOTE class=%s: the replay did not reproduce in a fresh interpreter although the violation was seen %d time(s) in the "
+                      "search and again on re-execution here; it depends on process state outside the recorded choices" % (v["cls"], len(lst)))
+            else:
+                harness_fail = (harness_fail or "") + " replay %s did not reproduce in a fresh interpreter" % path
         reported.append({"cls": v["cls"], "key": v.get("key", {}), "detail": vj["detail"], "replay": path,
                          "count": len(lst), "confirmed_fresh": ok})
 
@@ -483,7 +497,15 @@ def run_check(mod, tier: str, base_seed: int, budget_s: Optional[float], workers
         print("  class=%s count=%d detail=%s" % (r["cls"], r["count"], r["detail"][:500]))
     if agg["harness"]:
         harness_fail = (harness_fail or "") + " %d case(s) raised inside the harness" % len(agg["harness"])
+        hard_fail = True
         print(agg["harness"][0]["tb"], file=sys.stderr)
+    if harness_fail and reported and not hard_fail:
+        # Violations were observed, and the only complaint of the harness is that something did not repeat (determinism
+        # self-test, fresh-interpreter replay).  With a simulator that is deterministic on the unchanged tree (self-tested on
+        # every run) this means the code under test now depends on state outside the simulation (object addresses, allocator):
+        # the violations stand, the note says that their replay files cannot be promised to reproduce.
+        print("HARNESS-NOTE property=%s %s" % (prop, harness_fail))
+        return 1
     if harness_fail:
         print("HARNESS-ERROR property=%s %s" % (prop, harness_fail))
         return 2
